@@ -603,3 +603,56 @@ func TestC14Comments(t *testing.T) {
 }
 
 func init() { reg("C14.comment", checkC14Comment) }
+
+// TestC14Names: templates whose identifiers differ only in letter case, below and above the
+// tokenizer switch (name tables that the two tokenizers fill differently must not decide what a
+// name means).
+func TestC14Names(t *testing.T) {
+	r := NewRec(t, "C14", "exhaustive: 10 templates that use variables, attributes, filters' arguments and set targets whose names differ only in letter case (name / Name / NAME, id / ID / Id, x.title / x.Title), as written and with 4100 bytes of text before / after; oracle: same output apart from the text, and the expected values; all cases non-trivial")
+	defer r.Flush()
+	r.SetExhaustive()
+	ctx := Ctx{}
+	ctx.Set("name", Str("lower"))
+	ctx.Set("Name", Str("Capital"))
+	ctx.Set("NAME", Str("UPPER"))
+	ctx.Set("id", Int(1))
+	ctx.Set("ID", Int(2))
+	ctx.Set("Id", Int(3))
+	ctx.Set("x", Hash([]string{"title", "Title"}, []*E{Str("t"), Str("T")}))
+	srcs := [][2]string{{"{{ name }}|{{ Name }}|{{ NAME }}", "lower|Capital|UPPER"}, {"{{ NAME }}|{{ Name }}|{{ name }}", "UPPER|Capital|lower"}, {"{{ id }}{{ ID }}{{ Id }}", "123"}, {"{{ Id }}{{ ID }}{{ id }}", "321"},
+		{"{% if Name == 'Capital' %}a{% endif %}{% if name == 'lower' %}b{% endif %}", "ab"}, {"{{ x.title }}{{ x.Title }}|{{ x.Title }}{{ x.title }}", "tT|Tt"}, {"{% set Total = 5 %}{% set total = 6 %}{{ Total }}{{ total }}", "56"},
+		{"{% for Item in [1] %}{% for item in [2] %}{{ Item }}{{ item }}{% endfor %}{% endfor %}", "12"}, {"{{ name|default(Name) }}{{ nope|default(NAME) }}", "lowerUPPER"}, {"{{ ID + id * Id }}", "5"}}
+	pad := strings.Repeat("0123456789abcdef", 257)
+	for _, sc := range srcs {
+		for _, where := range []string{"", "before", "after"} {
+			src, want := sc[0], sc[1]
+			switch where {
+			case "before":
+				src, want = pad+src, pad+want
+			case "after":
+				src, want = src+pad, want+pad
+			}
+			c := C14NameCase{Src: src, Want: want, Ctx: ctx}
+			r.Case(sc[0]+where, true, sc[0]+" / "+where)
+			if err := checkC14Name(c); err != nil {
+				r.FailEnumKey(t, "C14.names", sc[0], c, err)
+			}
+		}
+	}
+}
+
+type C14NameCase struct {
+	Src  string `json:"src"`
+	Want string `json:"want"`
+	Ctx  Ctx    `json:"ctx"`
+}
+
+func checkC14Name(c C14NameCase) error {
+	r := render(newEngine(map[string]string{"main": c.Src}), "main", c.Ctx.Go())
+	if r.Failed() || r.Out != c.Want {
+		return fmt.Errorf("names that differ only in letter case: %s renders %s, want %s", q(trunc(c.Src)), trunc(fmt.Sprint(r)), q(trunc(c.Want)))
+	}
+	return nil
+}
+
+func init() { reg("C14.names", checkC14Name) }
